@@ -278,6 +278,26 @@ def run_item(item) -> Acc:
                     lb = sorted(t[2] for t in (vs or []) if t[1] == f"b{ext}")
                     if la != [first_a] or lb != [2]:
                         acc.fail({"linter": "dry", "construct": f"dup-{lang}", "mode": "line-is-not-first-line-of-block"}, case, {"a": [first_a], "b": [2]}, {"a": la, "b": lb})
+        # duplicate constants: the quoted name must be on the reported line (multi-declarator statements)
+        for lang, ext, fa, fb in (
+            ("ts", ".ts", "const API_TIMEOUT_MS = 3000,\n  MAX_RETRY_COUNT = 5;\n\nexport const LATER_LIMIT = 9,\n  POOL_SIZE_LIMIT = 64;\n", "const MAX_RETRY_COUNT = 5;\nconst POOL_SIZE_LIMIT = 64;\n"),
+            ("python", ".py", "API_TIMEOUT_MS = 3000\nMAX_RETRY_COUNT = 5\n\nLATER_LIMIT, POOL_SIZE_LIMIT = 9, 64\n", "MAX_RETRY_COUNT = 5\nPOOL_SIZE_LIMIT = 64\n"),
+        ):
+            files = {f"a{ext}": fa, f"b{ext}": fb}
+            cfgc = {"dry": {"enabled": True, "detect_duplicate_constants": True}}
+            vs, r = _run("dry", files, cfgc)
+            acc.case()
+            acc.valid()
+            if vs:
+                acc.nt(("dry-constants", lang))
+            for t in vs or []:
+                m = re.search(r"constant '([A-Za-z_][A-Za-z0-9_]*)'", t[4])
+                if not m:
+                    continue
+                acc.edge()
+                src_line = files[t[1]].split("\n")[t[2] - 1] if 0 < t[2] <= files[t[1]].count("\n") + 1 else ""
+                if m.group(1) not in src_line:
+                    acc.fail({"linter": "dry", "construct": f"duplicate-constant-{lang}", "mode": "quoted-name-not-on-line"}, {"cmd": "dry", "construct": f"dup-constant-{lang}", "files": files, "config": cfgc, "expected_line": None, "line": t[2]}, f"{m.group(1)!r} on line {t[2]} of {t[1]}", src_line)
     return acc
 
 
